@@ -577,8 +577,15 @@ func verifPrepareH(t tWorkflow, holder *vRunHolder) (*executableWorkflow, *vRun)
 		prov.outcomes[ts.id] = ts.outcome
 		run.order = append(run.order, ts.id)
 	}
-	e := &executor{logger: vLogger{}, config: &config.Config{}, stepRegistry: &vRegistry{p: prov}}
+	e := &executor{logger: vLogger{}, config: verifConfig(), stepRegistry: &vRegistry{p: prov}}
 	return verifRealPrepare(e, verifWorkflow(t)), run
+}
+
+// verifConfig: the engine configuration of the run-loop harnesses. Step outputs with the usual ids are
+// logged (to the no-op logger) so that the run loop's logging branch of onStageComplete is executed.
+func verifConfig() *config.Config {
+	lvl := &config.StepOutputLogConfig{LogLevel: log.LevelInfo}
+	return &config.Config{LoggedOutputConfigs: map[string]*config.StepOutputLogConfig{"success": lvl, "error": lvl, "resolved": lvl}}
 }
 
 // verifRealPrepare runs the REAL (*executor).Prepare on a template (stub registry / providers, stub
